@@ -123,6 +123,12 @@ M = [
     size_t toIndexPartial(const PartialKeys & ids, const Factors & space, const PartialFactors & pf) {'''),
  ('N9 DDNGraph::push accumulates startIds_ with the size of the FIRST feature tag only', 'src/Factored/Utils/BayesianNetwork.cpp',
   'newStartId += factorSpacePartial(newParents.features[i], S);', 'newStartId += factorSpacePartial(newParents.features[0], S);'),
+ ('N10 MDP::SparseModel::getTransitionProbability reads the transposed entry (the generic view every converting constructor uses)', 'src/MDP/SparseModel.cpp',
+  'return transitions_[a].coeff(s, s1);', 'return transitions_[a].coeff(s1, s);'),
+ ('N11 MDP::Model::getExpectedReward(s, a, s1) indexes the reward table by the successor', 'src/MDP/Model.cpp',
+  '''    double Model::getExpectedReward(const size_t s, const size_t a, const size_t) const {
+        return rewards_(s, a);''', '''    double Model::getExpectedReward(const size_t s, const size_t a, const size_t s1) const {
+        return rewards_(s1, a);'''),
 ]
 UT = '--ut' in sys.argv
 LENIENT = '--lenient' in sys.argv      # skip the textual tie (AITB.Gen.C06Sites) to see what the behavioural clauses catch alone
